@@ -14,7 +14,7 @@ import ast
 from ..core.astutil import norm, ParentMap
 from ..core.cfg import CFG
 from ..core.loader import walk_no_nested
-from ..core.pattern import Matcher
+from ..core.pattern import Matcher, Binds
 from ..engines.labels import LabelFlow, RAW, CANON, CANON1, ZERO, UNKNOWN, raw_sinks
 from ..engines import accforms as H
 
@@ -52,6 +52,7 @@ def check(prog, rep):
         _labels_canonical(prog, rep, f, params)
         _q_after_labels(prog, rep, f)
     _q_forms(prog, rep)
+    _signed_scaling(prog, rep)
     _levels(prog, rep)
     relabel_composition(prog, rep)
     rep.floor('C.returned-labels-canonical', 10)
@@ -593,6 +594,115 @@ def _index_space(prog, rep, f, store, L, V):
 
 
 # ------------------------------------------------------------------ (c) + (d)
+SCALING = {   # qtype -> (d0, d1) in terms of the positive / negative total weight
+    'smp': ('1/s0', '1/s1'),
+    'gja': ('1/(s0+s1)', '1/(s0+s1)'),
+    'sta': ('1/s0', '1/(s0+s1)'),
+    'pos': ('1/s0', '0'),
+    'neg': ('0', '1/s1'),
+}
+
+
+def _signed_scaling(prog, rep):
+    """The signed routines return q = d0*Q+ - d1*Q-.  The pair (d0, d1) must be the documented scaling of the chosen qtype,
+    computed from the *true* totals of the positive and negative weights: the substitution s = 1 for an absent sign may
+    only happen after the scaling was derived (it also zeroes the corresponding d)."""
+    import sympy as sp
+    from ..core.canon import Canon
+    n_br = 0
+    for name in ('modularity_louvain_und_sign', 'modularity_finetune_und_sign', 'modularity_probtune_und_sign', 'modularity_und_sign'):
+        f = prog.func(MODU, name)
+        m = Matcher(prog, f)
+        cfg = CFG(f.node)
+        stmts = _stmts(f)
+        # totals: s = np.sum(W±) with W0 = W*(W>0), W1 = -W*(W<0)
+        parts = {}
+        for s_ in stmts:
+            b = m.match(s_, '$P = $W * ($W > 0)')
+            if b and isinstance(b['P'], ast.Name):
+                parts[b['P'].id] = 0
+            b = m.match(s_, '$P = -$W * ($W < 0)')
+            if b and isinstance(b['P'], ast.Name):
+                parts[b['P'].id] = 1
+        totals = {}
+        for s_ in stmts:
+            b = m.match(s_, '$S = np.sum($P)') or m.match(s_, '$S = $P.sum()')
+            if b and isinstance(b['S'], ast.Name) and isinstance(b['P'], ast.Name) and b['P'].id in parts:
+                totals.setdefault(b['S'].id, []).append((s_, parts[b['P'].id]))
+        tot_name = {}
+        for nm, lst in totals.items():
+            for s_, k in lst:
+                tot_name[k] = nm
+        ok_tot = set(tot_name) == {0, 1}
+        near = [s_ for s_ in stmts if isinstance(s_, ast.Assign) and id(s_) not in {id(x) for lst in totals.values() for x, _ in lst} and any(
+            (m.match(sub, 'np.sum($P)') or Binds()).get('P') is not None and isinstance(m.match(sub, 'np.sum($P)')['P'], ast.Name)
+            and m.match(sub, 'np.sum($P)')['P'].id in parts for sub in ast.walk(s_.value))]
+        rep.ob('S.totals-of-each-sign', f, (near[0] if near else 's0 = np.sum(W0); s1 = np.sum(W1)') if not ok_tot else '%s, %s' % (tot_name[0], tot_name[1]), ok_tot,
+               'positive and negative total weights must be the plain sums of W*(W>0) and -W*(W<0) when the qtype scaling is derived from them'
+               + ('; found %s' % '; '.join(norm(x) for x in near) if near else ''), line=(near[0].lineno if near else f.node.lineno))
+        if not ok_tot:
+            continue
+        sym = {tot_name[0], tot_name[1]}
+        pure = {id(s_) for lst in totals.values() for s_, k in lst}
+        # the qtype chain
+        chain = {}
+        for node in stmts:
+            if isinstance(node, ast.If):
+                b = m.match(node.test, "qtype == $L")
+                if b and isinstance(b['L'], ast.Constant) and isinstance(b['L'].value, str):
+                    chain[b['L'].value] = node
+        rep.ob('S.every-qtype-has-a-scaling', f, 'branches: %s' % sorted(chain), set(chain) == set(SCALING),
+               'expected one branch for each of %s' % sorted(SCALING), line=f.node.lineno)
+        # names of the two factors: from the final combination d0*.. - d1*..
+        dn = None
+        for s_ in stmts:
+            if isinstance(s_, ast.Assign):
+                b = m.match(s_.value, '$A * $X - $B * $Y')
+                if b and isinstance(b['A'], ast.Name) and isinstance(b['B'], ast.Name) and norm(s_.targets[0]).split('[')[0] == 'q':
+                    dn = (b['A'].id, b['B'].id)
+        if dn is None:
+            rep.ob('S.scaling-factors-identified', f, 'q = d0*Q+ - d1*Q-', False, 'final signed combination not found', line=f.node.lineno)
+            continue
+        for qt, node in sorted(chain.items()):
+            if qt not in SCALING:
+                continue
+            for k, dname in enumerate(dn):
+                asg = [x for x in node.body if isinstance(x, ast.Assign) and len(x.targets) == 1 and norm(x.targets[0]) == dname]
+                if len(asg) != 1:
+                    rep.ob('S.scaling-table', f, "qtype=='%s': %s" % (qt, dname), False, 'branch does not assign %s exactly once' % dname, line=node.lineno)
+                    continue
+                a = asg[0]
+                n_br += 1
+                names = {x.id for x in ast.walk(a.value) if isinstance(x, ast.Name)}
+                prior = {norm(x.targets[0]): x.value for x in node.body[:node.body.index(a)]
+                         if isinstance(x, ast.Assign) and len(x.targets) == 1 and isinstance(x.targets[0], ast.Name)}
+                try:
+                    e = Canon(prog, f, defs=prior).term(a.value)
+                    if not e.free_symbols <= {sp.Symbol(tot_name[0]), sp.Symbol(tot_name[1])}:
+                        e = None
+                except Exception:
+                    e = None
+                ref = sp.sympify(SCALING[qt][k], locals={'s0': sp.Symbol(tot_name[0]), 's1': sp.Symbol(tot_name[1])})
+                okv = e is not None and sp.simplify(e - ref) == 0
+                rep.ob('S.scaling-table', f, "qtype=='%s': %s" % (qt, norm(a)), okv,
+                       'for qtype %s the factor must be %s' % (qt, SCALING[qt][k]), line=a.lineno)
+                for v in sorted(names & sym):
+                    rd = cfg.reaching_defs(v, a)
+                    bad = [d for d in rd if d == 'ENTRY' or id(d) not in pure]
+                    rep.ob('S.scaling-uses-true-totals', f, "qtype=='%s': %s reads %s" % (qt, norm(a), v), not bad,
+                           'the total `%s` read here may come from %s, which is not the plain sum of the weights of that sign: the scaling '
+                           '(and with it the returned q) no longer matches the definition' % (v, [norm(d) if d != 'ENTRY' else d for d in bad]),
+                           line=a.lineno)
+        # a zero test on each total exists after the chain (absent sign)
+        for k in (0, 1):
+            v = tot_name[k]
+            tests = [x for x in stmts if isinstance(x, ast.If) and (m.match(x.test, 'not %s' % v) or m.match(x.test, '%s == 0' % v) or m.match(x.test, v))]
+            tests += [x for x in ast.walk(f.node) if isinstance(x, ast.IfExp) and v in {y.id for y in ast.walk(x.test) if isinstance(y, ast.Name)}]
+            rep.ob('S.absent-sign-handled', f, tests[0].test if tests else 'if not %s' % v, bool(tests),
+                   'a network without weights of one sign makes `%s` zero: the division by it must be neutralised' % v, line=f.node.lineno)
+    rep.floor('S.scaling-table', 36)
+
+
 def _levels(prog, rep):
     for name, Wname, agg in (('modularity_louvain_und', 'W', 'W1'), ('modularity_louvain_dir', 'W', 'W1')):
         f = prog.func(MODU, name)
@@ -656,6 +766,14 @@ def variants(root):
               "    q1 = (W1 - gamma * np.outer(Kn1, Kn1) / s1) * (m == m.T)\n    q = d0 * np.sum(q0) - d1 * np.sum(q1)\n")
     B('q computed before the move loop', 'modularity_finetune_und_sign', "    flag = True  # flag for within hierarchy search\n    h = 0\n",
       qblock + "    flag = True\n    h = 0\n", 'D.q-recomputed', also=[(M, qblock + "\n    return ci, q", "    return ci, q", 1)])
+    for fn in ('modularity_louvain_und_sign', 'modularity_finetune_und_sign', 'modularity_probtune_und_sign', 'modularity_und_sign'):
+        B('absent-sign substitution before the scaling', fn, 's0 = np.sum(W0)', 's0 = np.sum(W0) or 1', 'S.totals')
+        B('substitution moved before the qtype chain', fn, "    if qtype == 'smp':", "    if not s0:\n        s0 = 1\n    if qtype == 'smp':", 'S.scaling-uses-true-totals')
+        B('sta scaling of negative part by s1 only', fn, "    elif qtype == 'sta':\n        d0 = 1 / s0\n        d1 = 1 / (s0 + s1)", "    elif qtype == 'sta':\n        d0 = 1 / s0\n        d1 = 1 / s1", 'S.scaling-table')
+        B('pos keeps the negative part', fn, "    elif qtype == 'pos':\n        d0 = 1 / s0\n        d1 = 0", "    elif qtype == 'pos':\n        d0 = 1 / s0\n        d1 = 1 / s1", 'S.scaling-table')
+        B('gja branch missing', fn, "    elif qtype == 'gja':", "    elif qtype == 'gja_':", 'S.every-qtype')
+        N('smp written with reciprocal power', fn, "    if qtype == 'smp':\n        d0 = 1 / s0", "    if qtype == 'smp':\n        d0 = s0 ** -1")
+        N('gja sum commuted', fn, "    elif qtype == 'gja':\n        d0 = 1 / (s0 + s1)", "    elif qtype == 'gja':\n        d0 = 1 / (s1 + s0)")
     B('gamma dropped from q', 'modularity_finetune_und', 'q = np.trace(w) / s - gamma * np.sum(np.dot(w / s, w / s))', 'q = np.trace(w) / s - np.sum(np.dot(w / s, w / s))', 'G.')
     B('gamma dropped from q', 'modularity_finetune_und_sign', 'q0 = (W0 - gamma * np.outer(Kn0, Kn0) / s0)', 'q0 = (W0 - np.outer(Kn0, Kn0) / s0)', 'G.null')
     B('gamma dropped from q', 'modularity_louvain_und_sign', 'q1 = np.trace(W1) - gamma * np.sum', 'q1 = np.trace(W1) - np.sum', 'G.null')
